@@ -16,7 +16,7 @@ import copy
 from . import facts as fx
 
 MAX_DEPTH = 3
-MAX_BLOCKS = 4000
+MAX_BLOCKS = 30000
 MAX_CALLEE_BLOCKS = 900
 
 
